@@ -3,6 +3,8 @@ import QcelVerif.Model.KabschUnique
 import QcelVerif.Model.B787
 import QcelVerif.Model.UnoOrderings
 import QcelVerif.Model.RandRot
+import QcelVerif.Gen.KabschSrc
+import QcelVerif.Gen.B787Src
 import QcelVerif.Lib.Proto
 /-!
 Line-protocol driver for the C12 models (all numbers are exact rationals `p/q`).
@@ -12,6 +14,10 @@ Line-protocol driver for the C12 models (all numbers are exact rationals `p/q`).
     geometry, the model mirrors / reorders it, runs `kabschAlign` with the captured eigenvector `q`,
     applies the resulting recipe with `alignCoords` and reports everything exactly, plus the verdict of
     the proved certificate checker `isTopEig`.
+* `KS|…`  the same line answered by the SOURCE-DERIVED `kabsch_align` (`KabschAst.kabschAlignSrc` on `Gen/KabschSrc.lean`, regenerated
+    from align.py on every run); `Props/C12Src.lean kabschAlign_src_partial` proves the answer equal to that of `K`
+* `BS|…`  the trial loop assembled from the translated best-so-far blocks (`B787Ast.runSrc` on `Gen/B787Src.lean`); equal to `B` by `run_src`
+* `PS|…`  permutative candidate orderings with the translated `filter_permutative` (`B787Ast.candidatesSrc`); equal to `P` by `candidates_src`
 * `B|runMirror|superimposable|runToCompletion|aconv|plain,mir;plain,mir;…`   the trial loop
 * `P|rtol|atol|ref|cur|RR|CC`   permutative candidate orderings
 * `U|cut|k|red|cost|pairs`   one class of the `hungarian_uno` search (align.py:375-400): `red` = the k×k reduced matrix
@@ -50,7 +56,7 @@ def parseBool? (s : String) : Option Bool :=
 def sr (r : Rat) : String := showRat r
 def srs (l : List Rat) : String := ",".intercalate (l.map showRat)
 
-def stepK (f : List String) : String :=
+def stepKWith (align : List (V3 Rat) → List (V3 Rat) → Q4 Rat → KabschOut Rat) (f : List String) : String :=
   match f with
   | [mi, am, r, c, q, de, ep] =>
     match parseBool? mi, parseNatList? am ' ', (parseRats? r).bind toV3s, (parseRats? c).bind toV3s, parseRats? q,
@@ -62,7 +68,7 @@ def stepK (f : List String) : String :=
       | none => "err index"
       | some Cord =>
         let q : Q4 Rat := ⟨q0, q1, q2, q3⟩
-        let o := kabschAlign R Cord q
+        let o := align R Cord q
         match alignCoords mi o.T o.U am C with
         | none => "err index"
         | some al =>
@@ -74,6 +80,11 @@ def stepK (f : List String) : String :=
     | _, _, _, _, _, _, _ => "bad-op"
   | _ => "bad-op"
 
+def stepK (f : List String) : String := stepKWith kabschAlign f
+
+def stepKS (f : List String) : String :=
+  stepKWith (KabschAst.kabschAlignSrc Gen.KabschSrc.prog Gen.KabschSrc.F Gen.KabschSrc.U) f
+
 def parseTrial? (s : String) : Option B787.Trial :=
   match splitOnChar s ',' with
   | [a, b] => do
@@ -82,34 +93,54 @@ def parseTrial? (s : String) : Option B787.Trial :=
     pure ⟨a, b⟩
   | _ => none
 
+def showState (st : B787.State) : String :=
+  match st.sel with
+  | some (i, m) => s!"ok sel={i} mirror={if m then 1 else 0} best={st.best} ocount={st.ocount}"
+  | none => "err noSolution"
+
 def stepB (f : List String) : String :=
   match f with
   | [rm, su, rtc, ac, tr] =>
     match parseBool? rm, parseBool? su, parseBool? rtc, parseInt? ac, (splitNonEmpty tr ';').mapM parseTrial? with
     | some rm, some su, some rtc, some ac, some trials =>
       match B787.run { runMirror := rm, superimposable := su, runToCompletion := rtc, aconv := ac } trials with
-      | .ok st =>
-        match st.sel with
-        | some (i, m) => s!"ok sel={i} mirror={if m then 1 else 0} best={st.best} ocount={st.ocount}"
-        | none => "err noSolution"
+      | .ok st => showState st
       | .error .noSolution => "err noSolution"
       | .error .validation => "err validation"
     | _, _, _, _, _ => "bad-op"
   | _ => "bad-op"
 
+def stepBS (f : List String) : String :=
+  match f with
+  | [rm, su, rtc, ac, tr] =>
+    match parseBool? rm, parseBool? su, parseBool? rtc, parseInt? ac, (splitNonEmpty tr ';').mapM parseTrial? with
+    | some rm, some su, some rtc, some ac, some trials =>
+      match B787Ast.runSrc Gen.B787Src.loopBody { runMirror := rm, superimposable := su, runToCompletion := rtc, aconv := ac } trials with
+      | .ok st => showState st
+      | .err .noSolution => "err noSolution"
+      | .err .validation => "err validation"
+      | .illTyped => "err illTyped"
+    | _, _, _, _, _ => "bad-op"
+  | _ => "bad-op"
+
 def parseMat? (s : String) : Option (List (List Rat)) := (splitNonEmpty s ';').mapM parseRats?
 
-def stepP (f : List String) : String :=
+def stepPWith (cands : Rat → Rat → List Nat → List Nat → List (List Rat) → List (List Rat) → Except B787.Err (List (List Nat)))
+    (f : List String) : String :=
   match f with
   | [rtol, atol, rf, cu, rr, cc] =>
     match parseRat? rtol, parseRat? atol, parseNatList? rf ' ', parseNatList? cu ' ', parseMat? rr, parseMat? cc with
     | some rtol, some atol, some rf, some cu, some rr, some cc =>
-      match B787.candidates rtol atol rf cu rr cc with
+      match cands rtol atol rf cu rr cc with
       | .ok l => "ok " ++ ";".intercalate (l.map showNatList)
       | .error .validation => "err validation"
       | .error .noSolution => "err noSolution"
     | _, _, _, _, _, _ => "bad-op"
   | _ => "bad-op"
+
+def stepP (f : List String) : String := stepPWith B787.candidates f
+
+def stepPS (f : List String) : String := stepPWith (B787Ast.candidatesSrc Gen.B787Src.filter) f
 
 def showMat (k : Nat) (m : Uno.Mat) : String :=
   ";".intercalate ((List.range k).map fun i => " ".intercalate ((List.range k).map fun j => showRat (m i j)))
@@ -216,6 +247,9 @@ def stepR (f : List String) : String :=
 def stepC12 (line : String) : String :=
   match splitOnChar line '|' with
   | "K" :: f => stepK f
+  | "KS" :: f => stepKS f
+  | "BS" :: f => stepBS f
+  | "PS" :: f => stepPS f
   | "B" :: f => stepB f
   | "P" :: f => stepP f
   | "U" :: f => stepU f
